@@ -13,7 +13,7 @@ EX = 'exploration'
 CHECKS = {
     # id: (category, technique, text, note, engine, design_ref)
     'C01': (MC, 'stateless exhaustive schedule exploration of the real coordinator (all completion orders/batches) vs reference evaluator',
-            'Every completion order and batch (<=2 quick, <=3 thorough) of every DAG shape up to n=4 (quick) / n=5 (thorough) x requested subset x pre-cached subset is executed on the real coordinator; returned dict compared with an independent sequential reference. Real SerialRunner runs are checked with the same oracle and replayed against the schedule-controlling runner.',
+            'Every completion order and batch (<=2 quick, <=3 thorough) of every DAG shape up to n=4 x requested subset x pre-cached subset (thorough: also n=5 with a cold cache) is executed on the real coordinator; returned dict compared with an independent sequential reference. Real SerialRunner runs are checked with the same oracle and replayed against the schedule-controlling runner.',
             'Trusted: SchedRunner follows the documented Runner contract (bound by spy-trace replay of the real SerialRunner and of the real ProcessRunner over the virtual multiprocessing layer); bounds as stated in evidence.rule.',
             'E1+E2', '5/C01'),
     'C02': (MC, 'stateless exhaustive schedule exploration; submit-time and dependency-read oracle vs construction spec',
